@@ -16,7 +16,7 @@ MCGcOps == << [op |-> "prune", rd |-> "none", age |-> "none"],
               [op |-> "repack", rd |-> "ref", age |-> "past"] >>
 NoRefs == [n \in MCHeads \cup MCTagRefs |-> NoObj]
 OnMain == [sym |-> "refs/heads/main", det |-> None]
-NoIdx  == [a |-> None, d |-> None, m |-> None]
+NoIdx  == [a |-> None, d |-> None, m |-> None, u1 |-> None, u2 |-> None, u3 |-> None]
 \* empty repository
 S0 == [cm |-> <<>>, tg |-> <<>>, refs |-> NoRefs, head |-> OnMain, idx |-> NoIdx,
        shallow |-> {}, objs |-> {}, packed |-> {}, promisor |-> FALSE]
@@ -25,11 +25,11 @@ R1 == [a |-> "b1", d |-> None, m |-> None, par |-> <<>>]
 R2 == [a |-> "b1", d |-> "b2", m |-> None, par |-> <<"c1">>]
 O2 == {C("c1"), C("c2"), T("b1", None, None), T("b1", "b2", None), S("b2"), B("b1"), B("b2")}
 S1 == [cm |-> <<R1, R2>>, tg |-> <<>>, refs |-> [NoRefs EXCEPT !["refs/heads/main"] = C("c2")], head |-> OnMain,
-       idx |-> [a |-> "b1", d |-> "b2", m |-> None], shallow |-> {}, objs |-> O2, packed |-> {}, promisor |-> FALSE]
+       idx |-> [NoIdx EXCEPT !.a = "b1", !.d = "b2"], shallow |-> {}, objs |-> O2, packed |-> {}, promisor |-> FALSE]
 \* the same history packed, plus an annotated tag on c1, a side branch at c1 and a staged-only change (b3 at a)
 S2 == [cm |-> <<R1, R2>>, tg |-> <<C("c1")>>,
        refs |-> [NoRefs EXCEPT !["refs/heads/main"] = C("c2"), !["refs/heads/dev"] = C("c1"), !["refs/tags/v1"] = G("g1")],
-       head |-> OnMain, idx |-> [a |-> "b3", d |-> "b2", m |-> None], shallow |-> {},
+       head |-> OnMain, idx |-> [NoIdx EXCEPT !.a = "b3", !.d = "b2"], shallow |-> {},
        objs |-> O2 \cup {G("g1"), B("b3")}, packed |-> O2 \cup {G("g1")}, promisor |-> FALSE]
 \* a merge whose second parent (c3) is reachable only through it, seen only from a detached HEAD; a tree-typed annotated tag
 R3 == [a |-> "b3", d |-> None, m |-> None, par |-> <<"c1">>]
@@ -37,7 +37,14 @@ R4 == [a |-> "b3", d |-> "b2", m |-> None, par |-> <<"c2", "c3">>]
 O3 == O2 \cup {C("c3"), C("c4"), T("b3", None, None), T("b3", "b2", None), B("b3"), G("g1")}
 S3 == [cm |-> <<R1, R2, R3, R4>>, tg |-> <<T("b3", None, None)>>,
        refs |-> [NoRefs EXCEPT !["refs/heads/main"] = C("c1"), !["refs/tags/v1"] = G("g1")],
-       head |-> [sym |-> None, det |-> "c4"], idx |-> [a |-> "b3", d |-> "b2", m |-> None], shallow |-> {},
+       head |-> [sym |-> None, det |-> "c4"], idx |-> [NoIdx EXCEPT !.a = "b3", !.d = "b2"], shallow |-> {},
        objs |-> O3, packed |-> {}, promisor |-> FALSE]
-MCInits == {S0, S1, S2, S3}
+\* a merge stopped on a conflict whose other side is gone: path "u" has stages base=b1, ours=b2, theirs=b3;
+\* b3 is named by the index stage only (the merged-in branch was deleted) and sits in the pack, as after `git gc`
+S4 == [cm |-> <<R1, R2>>, tg |-> <<>>, refs |-> [NoRefs EXCEPT !["refs/heads/main"] = C("c2")], head |-> OnMain,
+       idx |-> [NoIdx EXCEPT !.a = "b1", !.d = "b2", !.u1 = "b1", !.u2 = "b2", !.u3 = "b3"], shallow |-> {},
+       objs |-> O2 \cup {B("b3")}, packed |-> O2 \cup {B("b3")}, promisor |-> FALSE]
+MCInits == {S0, S1, S2, S3, S4}
+\* modify/modify (three stages), add/add (no base), modify/delete (no "theirs")
+MCConflictShapes == {<<"b1", "b2", "b3">>, <<None, "b3", "b2">>, <<"b3", "b1", None>>}
 =============================================================================
